@@ -2,6 +2,7 @@ package sqlgen
 
 import (
 	"bytes"
+	"reflect"
 	"sort"
 )
 
@@ -72,19 +73,39 @@ func makeBatchQuery(filters []Filter) (string, []interface{}) {
 
 		if len(group.columns) == 1 {
 			column := group.columns[0]
-			clause.WriteString(column)
-			clause.WriteString(" IN (")
-			for j, tuple := range group.tuples {
-				// Separate tuples with commas.
-				if j > 0 {
+			// A NULL never compares equal in SQL, so a filter on a nil value is
+			// written as IS NULL (as the unbatched query does) instead of being
+			// put in the IN list.
+			hasNull := false
+			values := 0
+			for _, tuple := range group.tuples {
+				if isNilValue(tuple[0]) {
+					hasNull = true
+					continue
+				}
+				if values == 0 {
+					clause.WriteString(column)
+					clause.WriteString(" IN (")
+				} else {
+					// Separate tuples with commas.
 					clause.WriteString(", ")
 				}
 
 				// Write (?, ?, ?) string for the tuple, and append the arguments.
 				clause.WriteString("?")
 				args = append(args, tuple...)
+				values++
 			}
-			clause.WriteString(")")
+			if values > 0 {
+				clause.WriteString(")")
+			}
+			if hasNull {
+				if values > 0 {
+					clause.WriteString(" OR ")
+				}
+				clause.WriteString(column)
+				clause.WriteString(" IS NULL")
+			}
 		} else {
 
 			for i, tuple := range group.tuples {
@@ -99,9 +120,13 @@ func makeBatchQuery(filters []Filter) (string, []interface{}) {
 						clause.WriteString(" AND ")
 					}
 					clause.WriteString(column)
+					if isNilValue(tuple[j]) {
+						clause.WriteString(" IS NULL")
+						continue
+					}
 					clause.WriteString("=?")
+					args = append(args, tuple[j])
 				}
-				args = append(args, tuple...)
 				if len(group.columns) > 1 {
 					clause.WriteString(")")
 				}
@@ -110,4 +135,10 @@ func makeBatchQuery(filters []Filter) (string, []interface{}) {
 	}
 
 	return clause.String(), args
+}
+
+// isNilValue reports whether a filter value denotes SQL NULL: a nil interface
+// or a nil pointer.
+func isNilValue(v interface{}) bool {
+	return coerce(reflect.ValueOf(v)) == nil
 }
